@@ -13,6 +13,13 @@ CHECKS = {
         note="Exact-real arithmetic model (rounding outside); sizes bounded (2 rectangles, grids <= 3x3); z3 and CPython operator "
              "semantics trusted; witness replays compare symbolic outputs with concrete runs of the unshimmed code.",
         design="5/C18"),
+    'C16': dict(
+        text="Bounded symbolic model checking of the real Literal/Term/Expr/Ineq operator overloads: expression trees are built "
+             "through the real API with every integer constant an unbounded z3 Int and the truth assignment two z3 Bools; on "
+             "every feasible path z3 proves value(built)=value(direct), holds(Ineq) <=> direct comparison, and the normal form.",
+        note="Tree shapes bounded (depth <= 2 quick, <= 3 thorough, two variables); python ints = mathematical integers; "
+             "unsupported operand combinations that raise are counted as refused.",
+        design="5/C16"),
 }
 
 PENDING_REASON = "check not built yet in this round (planned in DESIGN.md section 5); nothing is claimed"
